@@ -487,7 +487,9 @@ def run_check(check, tier, seed, replay_path=None, cases_override=None):
     violations = replay_tier(check, tier, stats, known)
 
     n_cases = cases_override or (check.quick_cases if tier == "quick" else check.thorough_cases)
-    nworkers = max(1, min(NWORKERS, check.max_workers, n_cases))
+    # Hypothesis tries the simplest example first, so a worker needs several examples to leave the
+    # minimal corner of the domain: at least 4 examples per worker.
+    nworkers = max(1, min(NWORKERS, check.max_workers, max(1, n_cases // 4)))
     if n_cases > 0:
         per = [n_cases // nworkers + (1 if i < n_cases % nworkers else 0) for i in range(nworkers)]
         q = mp.Queue()
